@@ -258,6 +258,27 @@ ADDENDA10 = {
 for _k, _v in ADDENDA10.items():
     CLAIMS[_k]["text"] = CLAIMS[_k]["text"].rstrip() + " " + _v
 
+# structural clauses added in round 11 and from the mutation analysis of the checks (DESIGN.md §4)
+ADDENDA11 = {
+    "C01": "Round 11: both margin walks of every kernel use strict comparisons (KB-2c: a point on a knot of the upper margin keeps the piece on its left).",
+    "C02": "Round 11: KB-2c.",
+    "C05": "Round 11: KB-2c.",
+    "C06": "Round 11: strides are the row-major suffix products of the axes the reader installs (ST-1); the stacking order is one the number of tables supports (VG-6; defect D71 repaired); a missing PERIODn key leaves period 0 (FS-15).",
+    "C07": "Round 11: the rows of the extents block are set up before the fallback for files without EXTENTS writes through them (NL-4).",
+    "C08": "Round 11: a status test inside a lambda that captures the status word by copy is not a test of the status word (the normal form no longer folds such lambdas; ED-1 reports the statuses as dropped).",
+    "C09": "Round 11: slicemultiply un-flattens the column number with the axis order it flattened it with (GE-9); strides of the fitted table are row-major (ST-1).",
+    "C10": "Round 11: GE-9; the column search of get_column does not depend on the order of the stored entries (SO-2); the snapshot flag of the constrained set is assigned on both sides of the in-step test (SG-10).",
+    "C11": "Round 11: SO-2, SG-10.",
+    "C14": "Round 11: strides of the convolved shape are row-major (ST-1); the new knot field goes into the convolved dimension only (UW-11); no scratch is kept between calls (RE-1).",
+    "C15": "Round 11: ST-1 on the permuted shape; RE-1; FS-15.",
+    "C16": "Round 11: the string read returns the stored value as it is (KM-6); release sizes and the count of the key array (KM-7).",
+    "C17": "Round 11: GE-9; RE-1.",
+    "C19": "Round 11: the two helpers through which all storage goes ask the allocator for exactly the count they are given (SM-9).",
+    "C20": "Round 11: ST-1 in all five building operations; the stacking constructor fills every per-dimension attribute (FC-1), interleaves the coefficients along the new axis (FC-2) and refuses an unsupported order (VG-6, D71); NL-4; KM-7; RE-1.",
+}
+for _k, _v in ADDENDA11.items():
+    CLAIMS[_k]["text"] = CLAIMS[_k]["text"].rstrip() + " " + _v
+
 NOT_APPLICABLE = {
 }
 
